@@ -358,6 +358,25 @@ def run_case(case):
                      zip(got.names, got.results, got3.results) if lab.rows_diff(a, b, 1)), 'resource names %r' % got3.names)
                 v('sequential_source', '%s(resources=%r) on %r gives a different result when the package is read from one '
                   'sequential stream (unstream): %s' % (proc, s, names, dd[:300]))
+        # the SAME step object used again, on a package whose resources come in another order: a positional selector
+        # means the position in the package at hand (nothing learnt from the first package may stick to the object)
+        if isinstance(s, int) and len(names) > 1 and got.ok and not viol and proc != 'parallelize':
+            names2 = names[1:] + names[:1]
+            srcs2 = lambda: [lab.source(n, FIELDS, tables[n]) for n in names2]      # noqa: E731
+            log4, log5 = [], []
+            pre4, _ = build(proc, copy.deepcopy(s), log4)
+            again = lab.run(srcs2() + pre4 + [st])
+            pre5, st5 = build(proc, copy.deepcopy(s), log5)
+            fresh = lab.run(srcs2() + pre5 + [st5])
+            cov['proc_x_form']['%s/int/step_object_reused_on_another_package' % proc] = 1
+            counters['resources_compared'] += len(names2)
+            if again.ok != fresh.ok or (fresh.ok and (again.names != fresh.names or again.dp != fresh.dp or any(
+                    lab.rows_diff(a, b, 1) for a, b in zip(fresh.results, again.results)))):
+                v('step_object_reuse', '%s(resources=%r): the step object used on %r and then on %r gives there %s, a fresh '
+                  'step %s' % (proc, s, names, names2,
+                               again.errstr() if not again.ok else [(n, len(r)) for n, r in zip(again.names, again.results)],
+                               fresh.errstr() if not fresh.ok else [(n, len(r)) for n, r in zip(fresh.names, fresh.results)]),
+                  role='reused_step_object')
         nontrivial = 0 < len(want_sel) < len(names)
         sample = {'names': names, 'selector': s, 'proc': proc, 'reference_selection': want_sel}
         return dict(nontrivial=nontrivial, violations=viol, cov=cov, counters=counters,
